@@ -312,4 +312,19 @@ theorem finalizable_succeeds_run (s0 : St) (h4 : Inv04 s0) (hi : IdxInv s0) (ops
   obtain ⟨hr, hc⟩ := (hi'.pk p hp).nonEmpty hi'.cfg
   exact finalizable_succeeds _ (InvF.keys h4') p hp hs f hf hph hr hc a
 
+-- ------------------------------------------------------------------ non-vacuity
+
+/-- the first packet of `cexOps` (to a1) after the fulfilment by a2: still stored under its key and pending, now
+    naming a2 with `orig = a1` — the same packet up to the beneficiary rewrite -/
+example : ((run cexInit (cexOps.take 2)).packets.map (fun p => (p.status, p.target, p.orig))) = [(.pending, 1, none), (.pending, 2, none)] ∧
+    ((run cexInit (cexOps.take 3)).packets.map (fun p => (p.status, p.target, p.orig))) = [(.pending, 2, some 1), (.pending, 2, none)] := by decide
+example : ∀ p ∈ (run cexInit (cexOps.take 2)).packets, ∃ p' ∈ (run cexInit (cexOps.take 3)).packets,
+    pkey p' = pkey p ∧ p'.status = .pending ∧ { p' with target := p.target, orig := p.orig } = p := by decide
+/-- the two exceptions occur: the last op of `cexOps` is the accepted finalization of the first packet's key … -/
+example : (step (run cexInit (cexOps.take 5)) (.finalize 0 [114] 5 .onRecv [99, 55] 1)).2 = .ok ∧
+    ((run cexInit cexOps).packets.map (fun p => p.status)) = [.pending, .finalized] := by decide
+/-- … and a fork of the rollapp below the proof heights removes both pending packets -/
+example : forkRange [114] 4 (rollappPacketKey .pending [114] 5 .onRecv [99, 55] 1) = true ∧
+    (run cexInit (cexOps.take 3 ++ [.addState [114] 10, .fork [114] 4])).packets = [] := by decide
+
 end DymVerif.C04
